@@ -49,6 +49,8 @@ def strategy_(g):
         tolc = g.choice(["zero", "tiny", "mid", "loose"])
         tol = {"zero": 0.0, "tiny": 10.0 ** g.rnd.uniform(-12, -8), "mid": 10.0 ** g.rnd.uniform(-8, -3), "loose": 10.0 ** g.rnd.uniform(-3, -1)}[tolc]
         calls.append({"tol": tol, "max_iter": g.choice([1, 1, 2, 3, 4, 5, 8, 12, 20, 30]), "verbose": g.boolean(), "fix_first": g.boolean()})
+        # a tolerance placed just above / below the relative chi2 change (decrease OR increase) of one iteration of this very run
+        calls[-1]["tol_adaptive"] = {"k": g.rnd.randrange(10**6), "factor": g.choice([0.5, 2.0, 2.0, 10.0])} if g.choice([False, False, True]) else None
         # between two calls the user may nudge vertex poses IN PLACE (the pose is an ndarray; no new object is assigned)
         calls[-1]["nudge"] = [[g.rnd.randrange(10**6), g.rnd.randrange(10**6), g.rnd.uniform(-0.3, 0.3)] for _ in range(g.rnd.randint(1, 2))] if (calls[:-1] and g.choice([False, False, True])) else []
     calls[0]["fix_first"] = case["fix_first"]
@@ -156,6 +158,14 @@ def check(case, ctx):
             GC.optimize_quiet(M, tol=0.0, max_iter=1, fix_first_pose=False, verbose=False)
             chis.append(RG.chi2(M))
             states.append(state_bits(M)[0])
+        ta = call.get("tol_adaptive")
+        if ta:
+            rels = [(chis[j] - chis[j + 1]) / (chis[j] + EPS) for j in range(len(chis) - 1) if math.isfinite(chis[j]) and math.isfinite(chis[j + 1]) and chis[j] > 0]
+            rels = [r for r in rels if r != 0.0 and math.isfinite(r)]
+            if rels:
+                r = rels[ta["k"] % len(rels)]
+                tol = min(0.5, abs(r) * ta["factor"])
+                ctx.event("tol-adaptive:%s-of-a-%s" % ("above" if ta["factor"] > 1 else "below", "decrease" if r > 0 else "increase"))
         # ---- second model: every single iteration is executed on a graph rebuilt from scratch (fresh edge, vertex and
         #      graph objects), so nothing can be carried over from one iteration to the next; it must agree with the
         #      single-step clone, which keeps its objects
